@@ -1,13 +1,13 @@
 package fakes
 
 import (
-	"time"
 	"bytes"
 	"fmt"
 	"io"
 	"net"
 	"net/http"
 	"sync"
+	"time"
 )
 
 // Attempt is one HTTP request seen by the scripted RoundTripper.
